@@ -50,6 +50,8 @@ pub struct Sink {
     pub max_steps_linear: u64,
     pub max_steps_linear_label: &'static str,
     pub max_steps_quadratic: u64,
+    /// largest fraction (x1000) of its budget that any query used
+    pub max_budget_fraction_x1000: u64,
     pub max_iter_items: u64,
     /// an iterator yielded more items than its bound: (label, items, bound)
     pub iter_overrun: Option<(&'static str, u64, u64)>,
@@ -80,6 +82,7 @@ impl Sink {
             max_steps_linear: 0,
             max_steps_linear_label: "",
             max_steps_quadratic: 0,
+            max_budget_fraction_x1000: 0,
             max_iter_items: 0,
             iter_overrun: None,
             resurrect: None,
@@ -115,6 +118,14 @@ impl Sink {
     }
     pub fn end(&mut self, kind: Kind) {
         let s = steps::steps();
+        let budget = match kind {
+            Kind::Linear => linear_budget(self.n),
+            Kind::Quadratic => quadratic_budget(self.n),
+        };
+        let frac = s.saturating_mul(1000) / budget.max(1);
+        if frac > self.max_budget_fraction_x1000 {
+            self.max_budget_fraction_x1000 = frac;
+        }
         match kind {
             Kind::Linear => {
                 if s > self.max_steps_linear {
